@@ -249,8 +249,5 @@ def run(ctx):
 
 
 def replay(ctx, path):
-    r = json.load(open(path))
-    print(json.dumps(r, indent=1)[:2000])
-    if r.get("kind") == "task":
-        print(taskharness.run_real(r["task"]))
-    return 1
+    import sys
+    return common.replay_by_rerun(ctx, path, sys.modules[__name__])
